@@ -104,9 +104,20 @@ Theorem C12_parse_render :
   forall mk k L, forallb plain_rule L = true -> parse_ignore_comment (render mk k L) = Some (k, L).
 Proof. exact parse_render. Qed.
 
-(* The "no other start / end directive" hypothesis of the range theorems is needed: by design
-   (linter tests pin it) falco-ignore-end without rules clears the whole range set, so a pair
-   placed inside an open range ends it.  Witness in Proofs/IgnoreExamples.v. *)
+(* KNOWN FINDING (known_findings.txt, construct "overlapping-ranges-sharing-rules").  The range
+   theorems above require that no other start / end directive lies inside the new pair's region
+   and that the range set does not already hold the named rules.  That exclusion is needed, and
+   what it excludes is a genuine deviation from the property, not a matter of taste: the range
+   set is ONE set, falco-ignore-end removes its rules from it (all of them when bare), so a pair
+   placed inside an open range that shares rules with it ends that range - diagnostics located
+   after the inner end, inside the outer range, are reported again: the inner pair changed OTHER
+   diagnostics than those it covers.  The linter test
+   TestIgnoreErrorStartEndRangeOnly_EndWithNoRulesSpecifiedUnignoresAllRules pins this behaviour,
+   so it is recorded, not repaired.  Witness (Proofs/IgnoreExamples.v, ex_nested_ranges): outer
+   pair around a..d, inner pair around b: c and d are reported again.
+   What the theorems do NOT cover although the implementation behaves as the property says
+   (checked by the differential run and the direct oracle only): a pair nested in an open range
+   whose rule lists are disjoint from it. *)
 Theorem C12_range_overlap_refuted :
   exists L c1 c2 before ki mid kj after k1 k2,
     parse_ignore_comment c1 = Some (Start, L) /\ parse_ignore_comment c2 = Some (End, L) /\
